@@ -664,7 +664,7 @@ def run(info, out):
             if corpus:
                 process(corpus, exe_i, exe_m, pool, out, cov, 10 ** 9)
             cov["corpus_cases"] = len(corpus)
-            nbase = 120 if tier == "quick" else 3000
+            nbase = 360 if tier == "quick" else 3000
             if not info["proof_ok"]:
                 nbase *= 10
             rng = Rng(seed)
@@ -676,7 +676,7 @@ def run(info, out):
                 cases = [gen_case(r.fork("c%d" % i), "g%d_%d" % (bi, i), big=(tier != "quick" and i % 5 == 0)) for i in range(k)]
                 nf = process(cases, exe_i, exe_m, pool, out, cov, 90 if tier == "quick" else 130)
                 done += k; bi += 1
-                if nf and nbase < 10 * (120 if tier == "quick" else 3000) and not info["proof_ok"]:
+                if nf and nbase < 10 * (360 if tier == "quick" else 3000) and not info["proof_ok"]:
                     pass
             cov["generated_cases"] = done
     finally:
